@@ -182,7 +182,7 @@ impl Check for C20 {
     fn run(&self, ctx: &mut Ctx) -> Result<(), MachineryError> {
         let depth = std::env::var("C20_DEPTH").ok().and_then(|s| s.parse().ok()).unwrap_or(ctx.tier.pick(4usize, 6usize));
         ctx.rule = format!(
-            "breadth-first over all histories of <= {} operations from {} operations on x, y and `_` (declare through :=, list pattern, object pattern, fn, for target, parameter; assign; op-assign; read; open / close block, if, loop, function (called when closed); `_` as target in every entry point, print(_), duplicate names in one pattern, collect targets); dead states are not expanded; plus the product of {} non-bindable expression kinds x {} binding positions; non-trivial = all",
+            "breadth-first over all histories of <= {} operations from {} operations on x, y and `_` (declare through :=, list pattern, object pattern, fn, for target, parameter; assign; op-assign; read; open / close block, if, loop, function (called when closed); `_` as target in every entry point, print(_), duplicate names in one pattern, collect targets); dead states are not expanded; plus the product of {} non-bindable expression kinds x {} binding positions and of 7 element / property / range targets x the same positions; non-trivial = all",
             depth,
             OPS.len(),
             NON_BINDABLE.len(),
@@ -224,6 +224,16 @@ impl Check for C20 {
                 cases.push(Case::new(src, 1000, format!("nonbindable {} in position {}", ti, pi)));
             }
         }
+        // element / property / range targets are bindable in statements, patterns and `for`; as
+        // parameters they are rejected for named functions (tag 1001: the reference decides; for
+        // anonymous functions, tag 1002, a reported error is accepted as well)
+        for t in ["xs[0]", "o.k", "o[\"k\"]", "xs[0:1]", "xs[a]", "[xs[0], o.k]", "{\"k\": xs[1]}"] {
+            for (pi, p) in POSITIONS.iter().enumerate() {
+                let src = format!("xs := [0, 0]\no := {{\"k\": 0}}\na := 1\nprint(\"pre\")\n{}print(xs)\nprint(o)\n", p.replace('@', t));
+                let anon = p.contains("fn (");
+                cases.push(Case::new(src, if anon { 1002 } else { 1001 }, format!("element target {} in position {}", t, pi)));
+            }
+        }
         ctx.judge(cases, |c, r, o| self.oracle(c, r, o))?;
         ctx.guard("a redeclaration in the same scope was rejected", g_redecl);
         ctx.guard("an undefined name was rejected", g_undef);
@@ -249,6 +259,9 @@ impl Check for C20 {
             if !r.is_ok() && o.stdout != r.stdout {
                 return viol("output", format!("{}: printed {:?}, reference {:?}", c.meta, o.out_str(), String::from_utf8_lossy(&r.stdout)));
             }
+            return Verdict::Pass;
+        }
+        if c.tag == 1002 && o.class == Class::Err && o.out_str() == "pre\n" {
             return Verdict::Pass;
         }
         if o.stdout != r.stdout {
